@@ -49,6 +49,16 @@ RepOf(kd) == CASE kd \in SetKinds -> [k |-> kd, s |-> {W("a"), W("b")}]
 Reps == {RepOf(kd) : kd \in CompoundKinds \cup StatementKinds} \cup {W("c"), IV("x"), DV("y"), QV("z"), OP("op"), INT("7")}
 U2rSet(z) == Build(Reps, 2, 2, 2)       \* (dummy parameter: TLC evaluates parameterless constants eagerly at start-up)
 
+\* pairwise cover of direct nesting: every constructor directly inside every constructor at every position (the sibling is a word)
+PairCoverSet(z) ==
+  LET K == W("k") IN
+  UNION {{[k |-> kd, s |-> {c, K}], [k |-> kd, s |-> {c}]} : kd \in SetKinds, c \in Reps}
+  \cup UNION {{[k |-> kd, q |-> <<c, K>>], [k |-> kd, q |-> <<K, c>>], [k |-> kd, q |-> <<c>>]} : kd \in SeqKinds, c \in Reps}
+  \cup UNION {{[k |-> kd, i |-> i, q |-> <<c, K>>], [k |-> kd, i |-> i, q |-> <<K, c>>]} : kd \in ImgKinds, i \in 0..2, c \in Reps \ {PH}}
+  \cup {[k |-> "Negation", a |-> c] : c \in Reps}
+  \cup UNION {{[k |-> kd, a |-> c, b |-> K], [k |-> kd, a |-> K, b |-> c]} : kd \in AsymBinKinds, c \in Reps}
+  \cup {[k |-> kd, p |-> {c, K}] : kd \in SymStmtKinds, c \in Reps}
+
 \* images whose components contain a placeholder AFTER the index (in C01's universe, DESIGN 9a)
 ImgWithLatePH == {[k |-> kd, i |-> i, q |-> q] : kd \in ImgKinds, i \in 0..1,
                   q \in {<<W("a"), PH>>, <<PH>>, <<W("a"), PH, W("b")>>, <<W("a"), PH, PH>>}}
